@@ -211,6 +211,8 @@ type pipeEnv struct {
 	names   []string
 	port    int
 	coll    *exec.Cmd
+	// keyed paths sent by the scripts, per target: candidates for a sub-tree query handed to the CLI as a query flag
+	keyed map[string][][]*pb.PathElem
 	// atomic containers sent by the scripts: origin and member count per target/container
 	atomOrigin  map[string]string
 	atomMembers map[string]int
@@ -229,7 +231,7 @@ func (e *pipeEnv) genScript(t string) {
 		for k, m := 0, 1+r.Intn(3); k < m; k++ {
 			pe := &pb.PathElem{Name: names[r.Intn(len(names))]}
 			if r.Intn(4) == 0 {
-				pe.Key = map[string]string{"name": []string{"eth0", "eth1"}[r.Intn(2)]}
+				pe.Key = map[string]string{"name": []string{"eth0", "eth1", "eth0/1"}[r.Intn(3)]}
 				if r.Intn(2) == 0 {
 					pe.Key["id"] = []string{"1", "2"}[r.Intn(2)]
 				}
@@ -286,6 +288,12 @@ func (e *pipeEnv) genScript(t string) {
 			continue
 		}
 		used = append(used, full)
+		for k, pe := range elems {
+			if len(pe.Key) > 0 && len(path.GetElement()) == 0 && (prefix == nil || len(prefix.GetElement()) == 0) {
+				e.keyed[t] = append(e.keyed[t], elems[:k+1])
+				break
+			}
+		}
 		n := &pb.Notification{Timestamp: time.Now().UnixNano() + int64(i), Prefix: prefix}
 		if r.Intn(6) == 0 && len(path.GetElem()) > 1 {
 			// the replace idiom: one notification deletes a container and re-asserts a leaf beneath it
@@ -543,7 +551,7 @@ func parseGroupDisplay(s string) ([]pipeLeaf, bool) {
 
 func pipelineOne(w *trace.Writer, bin, dir string, seed int64) error {
 	r := rand.New(rand.NewSource(seed))
-	e := &pipeEnv{w: w, bin: bin, dir: dir, r: r, targets: map[string]*pipeTarget{}, atomOrigin: map[string]string{}, atomMembers: map[string]int{}}
+	e := &pipeEnv{w: w, bin: bin, dir: dir, r: r, targets: map[string]*pipeTarget{}, atomOrigin: map[string]string{}, atomMembers: map[string]int{}, keyed: map[string][][]*pb.PathElem{}}
 	certFile, keyFile, cert, err := selfSigned(dir)
 	if err != nil {
 		return err
@@ -578,7 +586,7 @@ func pipelineOne(w *trace.Writer, bin, dir string, seed int64) error {
 		return 1
 	}
 	view := func(who, scope, kind string, leaves []pipeLeaf, ok bool) {
-		w.Emit(trace.E{"ev": "view", "who": who, "scope": scope, "kind": kind, "leaves": leaves, "ok": ok})
+		w.Emit(trace.E{"ev": "view", "who": who, "scope": scope, "kind": kind, "leaves": leaves, "ok": ok, "sub": []string{}})
 	}
 	// library client, STREAM, one target after the other: establishes quiescence (sentinels) for all targets
 	for _, t := range e.names {
@@ -608,10 +616,31 @@ func pipelineOne(w *trace.Writer, bin, dir string, seed int64) error {
 		lv, pok := parseProtoDisplay(outS)
 		view(inv[0], t0, "typed", lv, ok && pok)
 	}
+	// a sub-tree handed over as a query flag: list keys in brackets (their values may contain the delimiter), any origin
+	if ks := e.keyed[t0]; len(ks) > 0 {
+		el := ks[r.Intn(len(ks))]
+		parts := []string{"*"}
+		for _, pe := range el {
+			str := pe.Name
+			names := []string{}
+			for k := range pe.Key {
+				names = append(names, k)
+			}
+			sort.Strings(names)
+			for _, k := range names {
+				str += "[" + k + "=" + pe.Key[k] + "]"
+			}
+			parts = append(parts, str)
+		}
+		outS, ok := e.cli("-t", t0, "-q", strings.Join(parts, "/"), "-qt", "once", "-dt", "p")
+		lv, pok := parseProtoDisplay(outS)
+		w.Emit(trace.E{"ev": "view", "who": "cli_flags_subtree", "scope": t0, "kind": "typed", "leaves": lv, "ok": ok && pok,
+			"sub": elemsOf(&pb.Path{Elem: el})})
+	}
 	outS, ok := e.cli("-t", t0, "-q", qflag, "-qt", "once", "-dt", "g")
 	gl, pok := parseGroupDisplay(outS)
 	// leaves whose rendering is not compared in the group display are dropped on both sides
-	w.Emit(trace.E{"ev": "view", "who": "cli_flags_group", "scope": t0, "kind": "group", "leaves": gl, "ok": ok && pok})
+	w.Emit(trace.E{"ev": "view", "who": "cli_flags_group", "scope": t0, "kind": "group", "leaves": gl, "ok": ok && pok, "sub": []string{}})
 	return nil
 }
 
